@@ -340,6 +340,7 @@ DRIVERS = {
     "gdriver": dict(name="gdriver", extract_v="theories/Extract/ExtractGrid.v", modname="gmodel"),
     "sgdriver": dict(name="sgdriver", extract_v="theories/Extract/ExtractSimplexGrid.v", modname="sgmodel"),
     "qtdriver": dict(name="qtdriver", extract_v="theories/Extract/ExtractQuadTree.v", modname="qtmodel"),
+    "otdriver": dict(name="otdriver", extract_v="theories/Extract/ExtractOctTree.v", modname="otmodel"),
 }
 
 
